@@ -2547,6 +2547,7 @@ class Recipe:
             after_substances += step.trash.get(substance, 0)
             delta += after_substances - before_substances
 
+        delta = round(delta, config.internal_precision)
         if delta < 0:
             raise ValueError(
                 f"Destination containers contain {-delta} {from_unit} less of substance {substance}" +
